@@ -117,10 +117,11 @@ func (m *Matcher) Loop() {
 				}
 			} else {
 				// Invalidate mergerCache
-				prevCount = count
 				m.mergerCache = make(map[string]*Merger)
 			}
 		}
+		// What goes into the cache from here on is for this many items
+		prevCount = count
 
 		if merger == nil {
 			merger, cancelled = m.scan(request)
